@@ -69,6 +69,11 @@ MAXDEN = 2 ** 10
 #   scope = {'t':'dict','vals':[[name,'q'],..],'vol':[names]} | {'t':'mapped','o':scope,'m':[[name,expr],..]}
 #         | {'t':'range','i':scope,'n':name,'v':'q'} | {'t':'joint','l':[[name,scope],..]}
 
+def V(v):
+    """exact value of a value string 'num[/den][@type]' (type tag: how the Python number is built, see _py_value)"""
+    return F(v.split('@')[0])
+
+
 def e_vars(e):
     if e[0] == 'c':
         return []
@@ -82,9 +87,10 @@ def e_vars(e):
 def e_eval(e, env):
     """exact evaluation; None if a variable is missing; raises OverflowError if a magnitude bound is exceeded"""
     if e[0] == 'c':
-        return F(e[1])
+        return V(e[1])
     if e[0] == 'v':
-        return env.get(e[1])
+        x = env.get(e[1])
+        return V(x) if isinstance(x, str) else x
     if e[0] == '/':
         a = e_eval(e[1], env)
         if a is None:
@@ -105,7 +111,7 @@ def e_eval(e, env):
 
 def e_str(e):
     if e[0] == 'c':
-        f = F(e[1])
+        f = V(e[1])
         return '(%d)' % f.numerator if f.denominator == 1 else '(%d/%d)' % (f.numerator, f.denominator)
     if e[0] == 'v':
         return e[1]
@@ -129,7 +135,7 @@ def s_denote(s):
     histogram only (the specification oracle is the Coq one)"""
     t = s['t']
     if t == 'dict':
-        return {k: F(v) for k, v in s['vals']}
+        return {k: V(v) for k, v in s['vals']}
     if t == 'mapped':
         d = s_denote(s['o'])
         if d is None:
@@ -146,7 +152,7 @@ def s_denote(s):
         if d is None:
             return None
         d = dict(d)
-        d[s['n']] = F(s['v'])
+        d[s['n']] = V(s['v'])
         return d
     out = {}
     for k, sub in s['l']:
@@ -228,6 +234,18 @@ def s_rebuild(s, nc):
     return {'t': 'joint', 'l': [[k, s_rebuild(sub, nc)] for k, sub in s['l']]}
 
 
+def ov_const(v):
+    """the JSON constant expression Scope.overwrite builds for the value string v (Expression(value): an int stays a
+    sympy Integer, every other number type is tagged so that the harness builds the very same Expression)"""
+    if '@' not in v and V(v).denominator != 1:
+        v = v + '@f'
+    return ['c', v]
+
+
+def s_overwrite(s, kv):
+    return {'t': 'mapped', 'o': s, 'm': [[k, ov_const(v)] for k, v in kv]}
+
+
 # ---------------------------------------------------------------------------------------------------------------------
 # generators
 
@@ -238,6 +256,20 @@ def rnd_value(rng):
     if r < 0.8:
         return F(0)
     return F(rng.randint(-12, 12), rng.choice([2, 4, 8]))
+
+
+def rnd_tagged(rng):
+    """a value string for a constant of a DictScope / change_constants / overwrite / an environment: 20 % carry a
+    number type on purpose (float, TimeType, numpy scalars), zero in every type"""
+    v = rnd_value(rng)
+    r = rng.random()
+    if r < 0.80:
+        return str(v)
+    if r < 0.88:
+        return str(v) + '@f'
+    if r < 0.96:
+        return str(v) + '@t'
+    return str(v) + ('@i' if v.denominator == 1 and r < 0.98 else '@n')
 
 
 def rnd_expr(rng, avail, missing_ok):
@@ -314,7 +346,7 @@ def e_cancels(e):
 def rnd_root(rng):
     k = rng.choice([0, 1, 2, 2, 3, 3, 4, 5])
     keys = rng.sample(NAMES[:6], k)
-    vals = [[n, str(rnd_value(rng))] for n in keys]
+    vals = [[n, rnd_tagged(rng)] for n in keys]
     r = rng.random()
     if r < 0.2:
         vol = []
@@ -396,13 +428,50 @@ def bounded(s):
         return False
 
 
+def s_permuted(s, shuffle):
+    """the same scope with every dictionary / set given in another order (== and hash must not see it)"""
+    t = s['t']
+    if t == 'dict':
+        vals, vol = [list(x) for x in s['vals']], list(s['vol'])
+        shuffle(vals)
+        shuffle(vol)
+        return {'t': 'dict', 'vals': vals, 'vol': vol}
+    if t == 'mapped':
+        m = list(s['m'])
+        shuffle(m)
+        return {'t': 'mapped', 'o': s_permuted(s['o'], shuffle), 'm': m}
+    if t == 'range':
+        return {'t': 'range', 'i': s_permuted(s['i'], shuffle), 'n': s['n'], 'v': s['v']}
+    l = [[k, s_permuted(sub, shuffle)] for k, sub in s['l']]
+    shuffle(l)
+    return {'t': 'joint', 'l': l}
+
+
+def s_retyped(s):
+    """the same scope with every untagged integral constant / index value given as a float (1 == 1.0, equal hash)"""
+    def rt(v):
+        return v + '@f' if '@' not in v and V(v).denominator == 1 else v
+    t = s['t']
+    if t == 'dict':
+        return {'t': 'dict', 'vals': [[k, rt(v)] for k, v in s['vals']], 'vol': list(s['vol'])}
+    if t == 'mapped':
+        return {'t': 'mapped', 'o': s_retyped(s['o']), 'm': s['m']}
+    if t == 'range':
+        return {'t': 'range', 'i': s_retyped(s['i']), 'n': s['n'], 'v': rt(s['v'])}
+    return {'t': 'joint', 'l': [[k, s_retyped(sub)] for k, sub in s['l']]}
+
+
 def s_variant(rng, s):
     """a scope with the same class skeleton whose (in)equality with s is robust (identical / clearly different)"""
     import copy
     o = copy.deepcopy(s)
-    kind = rng.choice(['same', 'same', 'val', 'vol', 'idx', 'expr', 'drop'])
+    kind = rng.choice(['same', 'perm', 'numty', 'val', 'vol', 'idx', 'expr', 'drop'])
     if kind == 'same':
         return o, kind
+    if kind == 'perm':
+        return s_permuted(o, lambda l: rng.shuffle(l)), kind
+    if kind == 'numty':
+        return s_retyped(o), kind
     # walk to a random node
     path = [o]
     while True:
@@ -419,7 +488,7 @@ def s_variant(rng, s):
     for node in path:
         if kind == 'val' and node['t'] == 'dict' and node['vals']:
             e = rng.choice(node['vals'])
-            e[1] = str(F(e[1]) + 1)
+            e[1] = str(V(e[1]) + 1)
             return o, kind
         if kind == 'vol' and node['t'] == 'dict' and node['vals']:
             n = rng.choice(node['vals'])[0]
@@ -427,7 +496,7 @@ def s_variant(rng, s):
             return o, kind
         if kind == 'idx' and node['t'] == 'range':
             if rng.random() < 0.5:
-                node['v'] = str(F(node['v']) + 1)
+                node['v'] = str(V(node['v']) + 1)
             else:
                 node['n'] = rng.choice([n for n in NAMES if n != node['n']])
             return o, kind
@@ -479,11 +548,25 @@ def rnd_ops(rng, s, n_ops):
                 names = [rng.choice(NAMES)]                                           # possibly no constant at all
             else:
                 names = []
-            nc = {n: str(rnd_value(rng)) for n in names}
+            nc = {n: rnd_tagged(rng) for n in names}
             nxt = s_rebuild(cur, nc)
             if not bounded(nxt):
                 continue
             ops.append(['change', sorted(nc.items())])
+            cur = nxt
+        elif r < 0.955:
+            # Scope.overwrite: a volatile name / some name of the scope / any name, 1-2 of them, constants of every type
+            vol = sorted({n for rt in s_roots(cur) for n in rt['vol']})
+            names = []
+            for _k in range(rng.choice([1, 1, 2])):
+                q = rng.random()
+                names.append(rng.choice(vol) if q < 0.4 and vol else rng.choice(dom) if q < 0.7 and dom
+                             else rng.choice(NAMES[:7]))
+            kv = [[n, rnd_tagged(rng)] for n in sorted(set(names))]
+            nxt = s_overwrite(cur, kv)
+            if s_depth(nxt) > 9:
+                continue
+            ops.append(['overwrite', kv])
             cur = nxt
         else:
             other, kind = s_variant(rng, cur)
@@ -511,7 +594,7 @@ def rnd_envs(rng, cur):
         names = [n for n in vol if rng.random() < 0.7] or vol[:1]
         if rng.random() < 0.08 and base:
             names = names + [rng.choice(sorted(base))]
-        nc = {n: str(rnd_value(rng)) for n in names}
+        nc = {n: rnd_tagged(rng) for n in names}
         try:
             if not bounded(s_rebuild(cur, nc)):
                 continue
@@ -522,6 +605,115 @@ def rnd_envs(rng, cur):
             env.pop(rng.choice(sorted(env)))
         envs.append(env)
     return [sorted(e.items()) for e in envs]
+
+
+# ---------------------------------------------------------------------------------------------------------------------
+# deterministic families (no randomness): the name-coincidence and repeated-call classes
+
+def _v(n):
+    return ['v', n]
+
+
+def fam_roots():
+    """three roots over a=p0 b=p1 v=p2 w=p3: one volatile constant; two; three with the value zero in three number types"""
+    return [
+        {'t': 'dict', 'vals': [['p0', '1'], ['p1', '2'], ['p2', '3']], 'vol': ['p2']},
+        {'t': 'dict', 'vals': [['p0', '1'], ['p1', '2'], ['p2', '3'], ['p3', '5']], 'vol': ['p2', 'p3']},
+        {'t': 'dict', 'vals': [['p0', '0'], ['p1', '4'], ['p2', '0@f'], ['p3', '0@t']], 'vol': ['p0', 'p2', 'p3']},
+    ]
+
+
+def fam_layers():
+    """layers in which a name plays two roles; a=p0 b=p1 v=p2 (volatile in every root) w=p3 x=p5 (fresh)"""
+    a, b, v, w, x, y = 'p0', 'p1', 'p2', 'p3', 'p5', 'p6'
+    M = lambda *kv: ('mapped', [list(p) for p in kv])
+    R = lambda n, val: ('range', n, val)
+    return [
+        M((a, ['+', _v(a), ['c', '1']])),                       # key = variable of its own expression
+        M((v, ['+', _v(v), ['c', '1']])),                       # ... on a volatile name
+        M((v, ['c', '7'])),                                     # volatile name overwritten by a constant
+        M((v, ['c', '0'])),                                     # ... by the constant 0
+        M((v, _v(a))),                                          # ... by an expression that does not mention it
+        M((v, ['*', _v(a), _v(b)])),
+        M((a, _v(v))),                                          # a constant name bound to the volatile one
+        M((a, _v(a))), M((v, _v(v))),                           # identity bindings
+        M((a, _v(b)), (b, _v(a))),                              # swap
+        M((a, _v(v)), (v, _v(a))),                              # swap through the volatile name
+        M((a, _v(b)), (b, _v(v)), (v, _v(a))),                  # 3-cycle
+        M((a, ['+', _v(v), _v(b)]), (b, ['c', '7'])),           # variable overwritten by the same mapping
+        M((x, ['*', _v(v), _v(a)])),                            # fresh name derived from the volatile one
+        M((x, _v(w)), (w, ['c', '2'])),                         # second volatile name (if any) renamed and overwritten
+        M((y, ['+', _v(x), _v(v)])),                            # refers to a name that only another layer provides
+        M((a, ['min', _v(a), _v(v)])),
+        R(a, '0'), R(v, '4'), R(w, '0'), R(x, '2'),             # index = constant / volatile / (maybe) mapped / fresh name
+        ('joint2',), ('jointop',),                              # one object under two names; VolatileValue.operation shape
+    ]
+
+
+def fam_apply(s, layer):
+    if layer[0] == 'mapped':
+        return {'t': 'mapped', 'o': s, 'm': layer[1]}
+    if layer[0] == 'range':
+        return {'t': 'range', 'i': s, 'n': layer[1], 'v': layer[2]}
+    dom = s_domain(s)
+    if layer[0] == 'joint2':                                    # the same object under (up to) three of its names
+        return {'t': 'joint', 'l': [[n, s] for n in ('p2', 'p0', 'p5') if n in dom]}
+    sub = {'t': 'mapped', 'o': s, 'm': [['p7', ['+', _v('p2'), ['c', '1']]]]}
+    return {'t': 'joint', 'l': [['p7', sub]] + [[n, s] for n in ('p2', 'p1') if n in dom]}
+
+
+def fam_history(s):
+    """a fixed history: every view, volatile keys and expressions (at the current constants, with a proper subset of the
+    volatile constants changed, with all of them changed to zero of three number types), change_constants on a proper
+    subset of the volatile constants twice in a row (second time another subset), to zero, Scope.overwrite of a
+    volatile name / a non-volatile name / a fresh name followed by the volatile queries, == against a permuted twin"""
+    vol = sorted({n for rt in s_roots(s) for n in rt['vol']})
+    base = merged_roots(s)
+    zeros = ['0', '0@f', '0@t']
+    env0 = sorted(base.items())
+    env1 = sorted(dict(base, **{vol[0]: '-2'}).items())
+    env2 = sorted(dict(base, **{n: zeros[i % 3] for i, n in enumerate(vol)}).items())
+    env3 = sorted(dict(base, **{vol[-1]: '6@t'}).items())
+    ops = [['volx', [env0, env1, env2, env3]], ['vol']]
+    ops += [['get', n] for n in ('p0', 'p2', 'p5')] + [['in', 'p5'], ['len'], ['iter'], ['as_dict'], ['get', 'p1'],
+                                                      ['get', 'p3'], ['keys'], ['items'], ['vol']]
+    cur = s
+    c1 = [[vol[0], '0']]                                         # a proper subset when there are several volatile constants
+    c2 = [[vol[-1], '0@f']]                                      # then another one
+    c3 = sorted(dict([[vol[0], '9'], [vol[len(vol) // 2], '0@t']]).items())      # (one entry when there is one name)
+    c3 = [list(x) for x in c3]
+    for c in (c1, c2, c3):
+        ops += [['change', c]]
+        cur = s_rebuild(cur, dict(c))
+        ops += [['vol'], ['as_dict'], ['volx', [sorted(merged_roots(cur).items())]]]
+    ops += [['eq', s_permuted(cur, lambda l: l.reverse()), 'perm'], ['eq', s_retyped(cur), 'numty']]
+    for kv in ([['p2', '7']], [['p0', '0@f'], ['p5', '0']]):
+        ops += [['overwrite', kv]]
+        cur = s_overwrite(cur, kv)
+        ops += [['vol'], ['volx', [sorted(merged_roots(cur).items()), env2]], ['as_dict'], ['get', 'p2']]
+    ops += [['change', [[vol[-1], '1/2']]]]
+    cur = s_rebuild(cur, {vol[-1]: '1/2'})
+    ops += [['vol'], ['as_dict'], ['eq', s_permuted(cur, lambda l: l.reverse()), 'perm']]
+    return ops
+
+
+def family_names(max_depth, third=None, thin=1):
+    """every stack of <= max_depth layers of fam_layers over every root of fam_roots, with fam_history; `third` restricts
+    the layers used at depth 3; thin > 1 (quick tier): the two-layer stacks over the first and the third root are
+    thinned to every thin-th combination (fixed, not random), the root with two volatile constants gets all of them"""
+    layers = fam_layers()
+    out = []
+    for ri, root in enumerate(fam_roots()):
+        for depth in range(0, max_depth + 1):
+            for ci, combo in enumerate(itertools.product(*[(layers if (k < 2 or third is None) else third)
+                                                           for k in range(depth)])):
+                if thin > 1 and depth == 2 and ri != 1 and ci % thin != ri:
+                    continue
+                s = root
+                for layer in combo:
+                    s = fam_apply(s, layer)
+                out.append({'kind': 'hist', 'scope': s, 'ops': fam_history(s), 'src': 'family'})
+    return out
 
 
 def exhaustive_small(rng, frac):
@@ -586,6 +778,10 @@ def gen_cases(rng, tier, ctx):
         ops = rnd_ops(rng, s, rng.randint(4, 14))
         cases.append({'kind': 'hist', 'scope': s, 'ops': ops, 'src': 'malformed' if malformed else 'random'})
     if tier == 'thorough':
+        cases.extend(family_names(3, third=fam_layers()[:6] + fam_layers()[9:11] + fam_layers()[17:19]))
+    else:
+        cases.extend(family_names(2, thin=4))
+    if tier == 'thorough':
         cases.extend(exhaustive_small(rng, 0.25))
     else:
         ex = exhaustive_small(rng, 0.0)
@@ -600,12 +796,33 @@ _EXPR_CACHE = {}
 
 
 def _py_value(q):
-    f = F(q)
+    """the Python number for a value string: untagged = int if integral else float; '@f' float, '@t' TimeType,
+    '@n' numpy.float64, '@i' numpy.int64 (integral values only)"""
+    f = V(q)
+    tag = q.split('@')[1] if '@' in q else ''
+    if tag == 'f':
+        return float(f)
+    if tag == 't':
+        from qupulse.utils.types import TimeType
+        return TimeType.from_fraction(f.numerator, f.denominator)
+    if tag == 'n':
+        import numpy
+        return numpy.float64(float(f))
+    if tag == 'i' and f.denominator == 1:
+        import numpy
+        return numpy.int64(int(f))
     return int(f) if f.denominator == 1 else float(f)
 
 
 def _py_expr(e):
-    from qupulse.expressions import ExpressionScalar
+    from qupulse.expressions import ExpressionScalar, Expression
+    if e[0] == 'c' and '@' in e[1]:
+        # a constant wrapped the way Scope.overwrite does it: Expression(value)
+        s = 'overwrite:' + e[1]
+        ex = _EXPR_CACHE.get(s)
+        if ex is None:
+            ex = _EXPR_CACHE[s] = Expression(_py_value(e[1]))
+        return ex
     s = e_str(e)
     ex = _EXPR_CACHE.get(s)
     if ex is None:
@@ -768,6 +985,10 @@ def _run_impl(case):
         elif k == 'eq':
             other = build(op[1])
             out.append({'ok': [bool(cur == other), hash(cur) == hash(other)]})
+        elif k == 'overwrite':
+            cur = cur.overwrite({n: _py_value(v) for n, v in op[1]})
+            cur_json = s_overwrite(cur_json, op[1])
+            out.append({'ok': True})
         else:
             raise ValueError(k)
     return {'obs': out}
@@ -782,11 +1003,11 @@ def g_name(n):
 
 def g_expr(e):
     if e[0] == 'c':
-        return '(EConst %s)' % gQ(F(e[1]))
+        return '(EConst %s)' % gQ(V(e[1]))
     if e[0] == 'v':
         return '(EVar %s)' % g_name(e[1])
     if e[0] == '/':
-        return '(EDivC %s %s)' % (g_expr(e[1]), gQ(F(e[2])))
+        return '(EDivC %s %s)' % (g_expr(e[1]), gQ(V(e[2])))
     return '(%s %s %s)' % ({'+': 'EAdd', '-': 'ESub', '*': 'EMul', 'min': 'EMin', 'max': 'EMax'}[e[0]],
                            g_expr(e[1]), g_expr(e[2]))
 
@@ -798,12 +1019,12 @@ def g_list(xs):
 def g_scope(s):
     t = s['t']
     if t == 'dict':
-        return '(SDict %s %s)' % (g_list('(%s, %s)' % (g_name(k), gQ(F(v))) for k, v in s['vals']),
+        return '(SDict %s %s)' % (g_list('(%s, %s)' % (g_name(k), gQ(V(v))) for k, v in s['vals']),
                                   g_list(g_name(n) for n in s['vol']))
     if t == 'mapped':
         return '(SMapped %s %s)' % (g_scope(s['o']), g_list('(%s, %s)' % (g_name(k), g_expr(canon(e))) for k, e in s['m']))
     if t == 'range':
-        return '(SRange %s %s %s)' % (g_scope(s['i']), g_name(s['n']), gQ(F(s['v'])))
+        return '(SRange %s %s %s)' % (g_scope(s['i']), g_name(s['n']), gQ(V(s['v'])))
     return '(SJoint %s)' % g_list('(%s, %s)' % (g_name(k), g_scope(sub)) for k, sub in s['l'])
 
 
@@ -814,11 +1035,13 @@ def g_op(op):
     if k == 'in':
         return '(OContains %s)' % g_name(op[1])
     if k == 'change':
-        return '(OChange %s)' % g_list('(%s, %s)' % (g_name(n), gQ(F(v))) for n, v in op[1])
+        return '(OChange %s)' % g_list('(%s, %s)' % (g_name(n), gQ(V(v))) for n, v in op[1])
+    if k == 'overwrite':
+        return '(OOverwrite %s)' % g_list('(%s, %s)' % (g_name(n), gQ(V(v))) for n, v in op[1])
     if k == 'eq':
         return '(OEq %s)' % g_scope(op[1])
     if k == 'volx':
-        return '(OVolX %s)' % g_list(g_list('(%s, %s)' % (g_name(n), gQ(F(v))) for n, v in env) for env in op[1])
+        return '(OVolX %s)' % g_list(g_list('(%s, %s)' % (g_name(n), gQ(V(v))) for n, v in env) for env in op[1])
     return {'iter': 'OIter', 'len': 'OLen', 'keys': 'OKeys', 'items': 'OItems', 'as_dict': 'OAsDict', 'vol': 'OVol'}[k]
 
 
@@ -848,6 +1071,8 @@ def g_obs(op, o):
         return '(BChange %s %s %s)' % tuple(gbool(b) for b in o['ok'])
     if k == 'eq':
         return '(BEq %s %s)' % tuple(gbool(b) for b in o['ok'])
+    if k == 'overwrite':
+        return 'BOver' if 'ok' in o else '(BKeys (Err EOther))'
     raise ValueError(k)
 
 
